@@ -66,8 +66,9 @@ impl CosetTable {
         self.part.find(c)
     }
 
-    fn merge(&mut self, a: usize, b: usize) {
+    fn merge(&mut self, a: usize, b: usize) -> Vec<usize> {
         let mut queue: VecDeque<(usize, usize)> = VecDeque::from([(a, b)]);
+        let mut merged = vec![];
 
         while let Some((a, b)) = queue.pop_front() {
             let a = self.canon(a);
@@ -86,15 +87,19 @@ impl CosetTable {
                     }
                 }
                 self.part.unite(a, b);
+                merged.push(a);
             }
         }
+
+        merged
     }
 
     fn compact(&self) -> CosetTable {
-        let mut n = 0;
+        let base = self.canon(0);
+        let mut n = 1;
         let mut old_to_new = vec![0; self.len()];
         for k in 0..self.len() {
-            if self.canon(k) == k {
+            if self.canon(k) == k && k != base {
                 old_to_new[k] = n;
                 n += 1;
             }
@@ -204,13 +209,16 @@ fn scan_both_ways(table: &CosetTable, w: &FreeWord, start: usize)
 
 fn scan_and_connect(
     table: &mut CosetTable, w: &FreeWord, start: usize
-) {
+) -> Vec<usize> {
     let (head, tail, gap, c) = scan_both_ways(table, w, start);
 
     if gap == 1 {
         table.join(head, tail, c);
+        vec![head]
     } else if gap == 0 && head != tail {
-        table.merge(head, tail);
+        table.merge(head, tail)
+    } else {
+        vec![]
     }
 }
 
@@ -236,15 +244,17 @@ pub fn coset_table(
                 assert!(n < 100_000, "Reached coset table limit of 100_000");
 
                 table.join(i, n, g);
-                for w in &rels {
-                    if w[0] == g {
-                        let c = table.canon(i);
-                        scan_and_connect(&mut table, w, c);
+
+                let mut queue = VecDeque::from([i]);
+                while let Some(row) = queue.pop_front() {
+                    for w in &rels {
+                        let c = table.canon(row);
+                        queue.extend(scan_and_connect(&mut table, w, c));
                     }
-                }
-                for w in subgroup_gens {
-                    let c = table.canon(1);
-                    scan_and_connect(&mut table, w, c);
+                    for w in subgroup_gens {
+                        let c = table.canon(0);
+                        queue.extend(scan_and_connect(&mut table, w, c));
+                    }
                 }
             }
         }
